@@ -60,7 +60,14 @@ class Runner:
         except rt2.BadScript:
             raise
         except BaseException as ex:
-            result = ["raise", rt2.enc(ex), type(ex).__name__]
+            result = ["raise", rt2.enc(ex), ("NameError:" if isinstance(ex, NameError) else "") + type(ex).__name__]
+            if type(ex).__name__ == "PteraNameError":
+                try:
+                    info = ex.info()
+                    result = ["raise", rt2.enc(ex), "NameError:PteraNameError", str(ex.varname), str(info.get("provenance")),
+                              "ann:" + ("none" if info.get("annotation") is None else "unannotated" if rt2.enc(info.get("annotation")) == "ABSENT" else str(info.get("annotation")))]
+                except Exception as ex2:
+                    result = ["raise", rt2.enc(ex), "NameError:PteraNameError", str(getattr(ex, "varname", "?")), "info-failed", type(ex2).__name__]
         log = [sval(e) for e in rt2.LOG]
         if hasattr(mod, "GV"):
             log.append(["global", "GV", rt2.enc(mod.GV)])
@@ -188,6 +195,14 @@ def variants(prog, opts, rng):
         rng.shuffle(trip)
         for a, b, c in trip[:1]:
             out.append({"mode": "probe", "sels": [{"focus": a, "ctx": [b, c]}]})
+    if "supply" in vs and (prog.get("decl") or {}).get("var"):
+        dv = prog["decl"]["var"]
+        out.append({"mode": "tweak", "sels": [{"focus": dv, "ctx": []}], "supply": 555})
+        out.append({"mode": "ovprobe", "sels": [{"focus": dv, "ctx": []}], "supply": 556})
+        out.append({"mode": "tweak_cond", "sels": [{"focus": dv, "ctx": []}], "supply": 557})
+        if "var2" in prog["decl"]:
+            out.append({"mode": "tweak", "sels": [{"focus": prog["decl"]["var2"], "ctx": []}], "supply": 558})
+            out.append({"mode": "tweak2", "sels": [{"focus": dv, "ctx": []}, {"focus": prog["decl"]["var2"], "ctx": []}], "supply": 559})
     if "meta" in vs:
         out.append({"mode": "probe", "sels": [{"focus": m, "ctx": []} for m in
                                                ("#enter", "#exit", "#value", "#error", "#yield", "#receive")], "meta": True})
@@ -203,7 +218,8 @@ def sel_text(fname, s):
 
 
 def run_variant(runner, var, script):
-    rec = {"mode": var["mode"], "sels": var["sels"], "act_err": "", "log": [], "result": [], "streams": []}
+    rec = {"mode": var["mode"], "sels": var["sels"], "act_err": "", "log": [], "result": [], "streams": [],
+           "supply": var.get("supply", 0)}
     mod = runner.load(twin=False)
     fn = getattr(mod, runner.name)
     try:
@@ -213,6 +229,25 @@ def run_variant(runner, var, script):
         elif var["mode"] == "inplace":
             tooled.inplace(fn)
             rec["log"], rec["result"] = runner.call(mod, fn, script)
+        elif var["mode"] in ("tweak", "tweak2", "tweak_cond"):
+            from ptera.overlay import Overlay
+            tooled.inplace(fn)
+            env = {runner.name: fn}
+            from ptera.selector import select
+            if var["mode"] == "tweak_cond":
+                # an override that declines (returns ABSENT): the variable stays unsupplied
+                from ptera.utils import ABSENT
+                ol = Overlay.rewriting({select(sel_text(runner.name, var["sels"][0]), env=env): (lambda args: ABSENT)})
+            else:
+                ol = Overlay.tweaking({select(sel_text(runner.name, s), env=env): var["supply"] + i for i, s in enumerate(var["sels"])})
+            with ol:
+                rec["log"], rec["result"] = runner.call(mod, fn, script)
+        elif var["mode"] == "ovprobe":
+            env = {runner.name: fn}
+            p = probing(sel_text(runner.name, var["sels"][0]), env=env, overridable=True)
+            p.override(var["supply"])
+            with p:
+                rec["log"], rec["result"] = runner.call(mod, fn, script)
         else:
             env = {runner.name: fn}
             streams = [[] for _ in var["sels"]]
@@ -270,6 +305,7 @@ def main():
                 tid += 1
                 out.append({"id": tid, "pid": prog["id"], "form": prog["form"], "ctx": prog["ctx"], "family": prog["family"],
                             "features": I.features(prog), "names": I.local_names(prog), "gen": bool(prog.get("gen")),
+                            "decl": prog.get("decl") or {"var": "", "marker": "", "catches": False},
                             "script": [sval(d) for d in script],
                             "ref": {"log": reflog, "result": refres}, "plain": {"log": plog, "result": pres},
                             "runs": runs})
